@@ -23,3 +23,124 @@ package simplefixgo
 //@     ensures res == mType(self)
 //@   method ToBytes() (res []byte, err error):
 //@     ensures (err == nil) == !mBytesErr(self) && imp(err == nil, string(res) == mBytes(self))
+
+// ---- handler pools and dispatch (C19) ------------------------------------------------------
+// callN/callAt/callRet: the handlers the library invoked (in order) and what they
+// returned; outN/outAt: the byte strings enqueued on DefaultHandler.out.
+//@ ghost callN int
+//@ ghost callAt map
+//@ ghost callRet map
+//@ ghost outN int
+//@ ghost outAt smap
+//@ chanlog DefaultHandler.out outN outAt
+//@ field[C20] HandlerPool.handlers: guarded_by(mu)
+//@ unscoped[C20] (*HandlerPool).Remove, (*HandlerPool).free
+
+//@ func (p *HandlerPool) add(msgType string, handle interface{}) (id int64)
+//@   requires p != nil && p.handlers != nil
+//@   modifies MAP
+//@   forall k string
+//@   ensures[C19] @appended mhas(p.handlers, msgType) && len(mget(p.handlers, msgType)) == old(ite(mhas(p.handlers, msgType), len(mget(p.handlers, msgType)), 0)) + 1 && nth(mget(p.handlers, msgType), len(mget(p.handlers, msgType)) - 1) == handle
+//@   ensures[C19] @others imp(k != msgType, mhas(p.handlers, k) == old(mhas(p.handlers, k)) && mget(p.handlers, k) == old(mget(p.handlers, k)))
+
+//@ func (p *HandlerPool) handlersByMsgType(msgType string) (result []interface{})
+//@   pure
+//@   requires p != nil
+//@   forall j int
+//@   ensures[C19] @copy len(result) == ite(mhas(p.handlers, msgType), len(mget(p.handlers, msgType)), 0)
+//@   ensures[C19] @inorder imp(0 <= j && j < len(result), nth(result, j) == nth(mget(p.handlers, msgType), j))
+
+// Range offers the handlers of one type in registration order and stops at the first refusal
+//@ func (p OutgoingHandlerPool) Range(msgType string, f func(OutgoingHandlerFunc) bool) (res bool)
+//@   requires p.HandlerPool != nil
+//@   callback f app
+//@   modifies callN, callAt, callRet
+//@   forall j int
+//@   call handlersByMsgType#1: witness hsc = ret
+//@   witness hs = mget(p.HandlerPool.handlers, msgType)
+//@   witness n = ite(mhas(p.HandlerPool.handlers, msgType), len(hs), 0)
+//@   ensures[C19] @all imp(res, callN == old(callN) + n)
+//@   ensures[C19] @prefix imp(j < old(callN), sel(callAt, j) == old(sel(callAt, j)) && sel(callRet, j) == old(sel(callRet, j)))
+//@   ensures[C19] @order imp(0 <= j && j < callN - old(callN), sel(callAt, old(callN) + j) == nth(hs, j))
+//@   ensures[C19] @accepted imp(0 <= j && j < callN - old(callN) - 1, sel(callRet, old(callN) + j) == 1)
+//@   ensures[C19] @refusal imp(!res, callN > old(callN) && callN <= old(callN) + n && sel(callRet, callN - 1) == 0)
+//@   ensures[C19] @allaccepted imp(res && 0 <= j && j < callN - old(callN), sel(callRet, old(callN) + j) == 1)
+//@   loop 1:
+//@     invariant[C19] 0 <= iter && iter <= n && callN == old(callN) + iter
+//@     invariant[C19] imp(0 <= j && j < iter, sel(callAt, old(callN) + j) == nth(hsc, j) && sel(callRet, old(callN) + j) == 1)
+//@     invariant[C19] imp(j < old(callN), sel(callAt, j) == old(sel(callAt, j)) && sel(callRet, j) == old(sel(callRet, j)))
+//@     decreases n - iter
+
+//@ func (p IncomingHandlerPool) Range(msgType string, f func(IncomingHandlerFunc) bool)
+//@   requires p.HandlerPool != nil
+//@   callback f app
+//@   modifies callN, callAt, callRet
+//@   forall j int
+//@   call handlersByMsgType#1: witness hsc = ret
+//@   witness hs = mget(p.HandlerPool.handlers, msgType)
+//@   witness n = ite(mhas(p.HandlerPool.handlers, msgType), len(hs), 0)
+//@   ensures[C19] @bounded callN >= old(callN) && callN <= old(callN) + n
+//@   ensures[C19] @prefix imp(j < old(callN), sel(callAt, j) == old(sel(callAt, j)) && sel(callRet, j) == old(sel(callRet, j)))
+//@   ensures[C19] @order imp(0 <= j && j < callN - old(callN), sel(callAt, old(callN) + j) == nth(hs, j))
+//@   ensures[C19] @untilrefusal imp(callN < old(callN) + n, callN > old(callN) && sel(callRet, callN - 1) == 0)
+//@   loop 1:
+//@     invariant[C19] 0 <= iter && iter <= n && callN == old(callN) + iter
+//@     invariant[C19] imp(0 <= j && j < iter, sel(callAt, old(callN) + j) == nth(hsc, j) && sel(callRet, old(callN) + j) == 1)
+//@     invariant[C19] imp(j < old(callN), sel(callAt, j) == old(sel(callAt, j)) && sel(callRet, j) == old(sel(callRet, j)))
+//@     decreases n - iter
+
+// DefaultHandler.send: all-types handlers, then the handlers of the message's own
+// type, each list in registration order; the first refusal stops everything; only
+// then is the message serialized and enqueued, exactly once, unchanged.
+//@ func (h *DefaultHandler) sendRaw(data []byte) (err error)
+//@   requires h != nil && h.ctx != nil
+//@   safety[C19]
+//@   modifies outN, outAt
+//@   ensures[C19,C04] @enqueued imp(err == nil, outN == old(outN) + 1 && outAt == upd(old(outAt), old(outN), string(data)))
+//@   ensures[C19,C04] @refused imp(err != nil, outN == old(outN) && outAt == old(outAt))
+
+//@ func (h *DefaultHandler) send(msg SendingMessage) (err error)
+//@   requires h != nil && h.ctx != nil && msg != nil && h.outgoingHandlers.HandlerPool != nil
+//@   modifies callN, callAt, callRet, outN, outAt
+//@   forall j int
+//@   call Range#1: witness ok1 = ret
+//@   call Range#1: witness c1 = callN
+//@   call Range#2:
+//@     witness ok2 = ret
+//@     witness c2 = callN
+//@     inst j = j
+//@     inst j = old(callN) + j
+//@   call ToBytes#1: witness berr = ret1
+//@   witness all = mget(h.outgoingHandlers.HandlerPool.handlers, AllMsgTypes)
+//@   witness own = mget(h.outgoingHandlers.HandlerPool.handlers, mType(msg))
+//@   ensures[C19] @allfirst imp(0 <= j && j < c1 - old(callN), sel(callAt, old(callN) + j) == nth(all, j))
+//@   ensures[C19] @thenown imp(ok1 && 0 <= j && j < c2 - c1, sel(callAt, c1 + j) == nth(own, j))
+//@   ensures[C19] @refusal imp(!ok1 || !ok2, err != nil && outN == old(outN) && outAt == old(outAt))
+//@   ensures[C19] @nomorecalls imp(!ok1, callN == c1) && imp(ok1, callN == c2)
+//@   ensures[C19] @transmitted imp(err == nil, outN == old(outN) + 1 && sel(outAt, old(outN)) == mBytes(msg))
+//@   ensures[C19] @onlyifaccepted imp(err == nil, ok1 && ok2 && berr == nil)
+//@   ensures[C19] @failed imp(err != nil, outN == old(outN) && outAt == old(outAt))
+
+//@ func (h *DefaultHandler) Send(message SendingMessage) (err error)
+//@   requires h != nil && h.ctx != nil && message != nil && h.outgoingHandlers.HandlerPool != nil
+//@   modifies callN, callAt, callRet, outN, outAt
+//@   ensures[C19] imp(err == nil, outN == old(outN) + 1 && sel(outAt, old(outN)) == mBytes(message))
+//@   ensures[C19] imp(err != nil, outN == old(outN) && outAt == old(outAt))
+
+// serve: every inbound message is offered to the all-types handlers and then to
+// the handlers registered for its own type (as found by an anchored MsgType lookup)
+//@ func (h *DefaultHandler) serve(msg []byte) (err error)
+//@   requires h != nil && h.incomingHandlers.HandlerPool != nil
+//@   safety[C11]
+//@   modifies callN, callAt, callRet
+//@   forall j int
+//@   call Range#1: witness c1 = callN
+//@   call Range#2:
+//@     inst j = j
+//@     inst j = old(callN) + j
+//@   witness all = mget(h.incomingHandlers.HandlerPool.handlers, AllMsgTypes)
+//@   witness own = mget(h.incomingHandlers.HandlerPool.handlers, fieldVal(string(msg), h.msgTypeTag))
+//@   ensures[C19,C18] @nomsgtype (err == nil) == hasField(string(msg), h.msgTypeTag)
+//@   ensures[C19] @allfirst imp(err == nil && 0 <= j && j < c1 - old(callN), sel(callAt, old(callN) + j) == nth(all, j))
+//@   ensures[C19,C18] @thenown imp(err == nil && 0 <= j && j < callN - c1, sel(callAt, c1 + j) == nth(own, j))
+//@   ensures[C19] @nothing imp(err != nil, callN == old(callN))
